@@ -54,9 +54,9 @@ End Eq.
 Arguments e_cur {V}. Arguments e_na {V}. Arguments e_nc {V}.
 Arguments EAbout {V}. Arguments EChanged {V}. Arguments EW {V}. Arguments EWCur {V}. Arguments EObs {V}.
 
-(* the equality relations of the five types the harness instantiates Property<T> with; values are integers,
+(* the equality relations of the six types the harness instantiates Property<T> with; values are integers,
    a negative value of flavour FNan stands for a NaN *)
-Inductive flavour := FInt | FMod | FNan | FNever | FNoEq.
+Inductive flavour := FInt | FMod | FNan | FNever | FNoEq | FLoose.
 Definition eqv_of (f : flavour) (a b : Z) : bool :=
   match f with
   | FInt => Z.eqb a b                                        (* int, operator== *)
@@ -64,6 +64,8 @@ Definition eqv_of (f : flavour) (a b : Z) : bool :=
   | FNan => if (a <? 0) || (b <? 0) then false else Z.eqb a b   (* double: NaN != NaN *)
   | FNever => false                                          (* equal_to<Never> specialised: never equal *)
   | FNoEq => false                                           (* no operator==, no specialisation: the library's fallback *)
+  | FLoose => Z.eqb a b                                      (* a class whose operator== is NOT declared noexcept (like std::string's
+                                                                before C++20, or most user types): still operator== *)
   end.
 
 Definition erun_f (f : flavour) (init : Z) (na nc : nat) (ops : list (eop Z)) : est Z * list (list (eev Z)) :=
